@@ -104,7 +104,9 @@ func Run(out string) {
 	}
 
 	// (2) ResponseWriter.SetResponse
-	for _, has := range []bool{true, false} {
+	// (has = 2: No-Response is NOT the request's last option - options numbered above 258 follow it, e.g. OCF-Content-Format-Version 2053)
+	for _, hasN := range []int{1, 2, 0} {
+		has := hasN > 0
 		for _, v := range values(thorough) {
 			for c := 0; c < 256; c++ {
 				resp := pool.NewMessage(nil)
@@ -114,6 +116,9 @@ func Run(out string) {
 				ro = append(ro, message.Option{ID: message.URIPath, Value: []byte("a")})
 				if has {
 					ro = append(ro, message.Option{ID: message.NoResponse, Value: encUint(v)})
+				}
+				if hasN == 2 {
+					ro = append(ro, message.Option{ID: message.OptionID(292), Value: []byte{1}}, message.Option{ID: message.OptionID(2053), Value: []byte{8, 0}})
 				}
 				rw := responsewriter.New(resp, nopClient{}, ro...)
 				err := rw.SetResponse(codes.Code(c), message.TextPlain, bytes.NewReader([]byte("x")))
@@ -145,7 +150,11 @@ func Run(out string) {
 }
 
 func reqOpts(v uint32) message.Options {
-	return message.Options{{ID: message.URIPath, Value: []byte("a")}, {ID: message.NoResponse, Value: encUint(v)}}
+	o := message.Options{{ID: message.URIPath, Value: []byte("a")}, {ID: message.NoResponse, Value: encUint(v)}}
+	if v%2 == 1 { // every second value: No-Response is not the last option of the request
+		o = append(o, message.Option{ID: message.OptionID(2053), Value: []byte{8, 0}})
+	}
+	return o
 }
 
 func udpWire(w *rec.W, v uint32, wcodes []int) {
